@@ -240,6 +240,30 @@ impl D {
         };
         self.out.line(&line);
     }
+    /// a disconnect notice of the link the item arrives on (market data for l1 / lt items, the account stream for
+    /// balances and orders): through the engine's own entry point, or - on the bare state - the connectivity update
+    /// the engine performs for it
+    fn notice(&mut self, item: &str) {
+        let (k, n) = item_target(item);
+        let market = k == "l1" || k == "lt";
+        let ex = world2::EXCHANGES[if k == "bal" { if n < 4 { 0 } else { 1 } } else { world2::EX_OF[n] }];
+        let via = self.via_engine;
+        let engine = &mut self.kit.engine;
+        let r = catch(|| {
+            if via {
+                let _ = engine.process(if market { EngineEvent::Market(MarketStreamEvent::Reconnecting(ex)) } else { EngineEvent::Account(AccountStreamEvent::Reconnecting(ex)) });
+            } else if market {
+                engine.state.connectivity.update_from_market_reconnecting(&ex);
+            } else {
+                engine.state.connectivity.update_from_account_reconnecting(&ex);
+            }
+        });
+        let line = match r {
+            Ok(()) => json!({"a": "Notice", "item": item, "post": project(&self.kit.engine.state)}),
+            Err(p) => json!({"a": "Notice", "item": item, "anomaly": format!("panic: {p}")}),
+        };
+        self.out.line(&line);
+    }
     /// store and restore what can be stored as JSON (the instrument states: top of book, last trade,
     /// orders; the asset states are keyed by a struct and have no JSON form)
     fn persist(&mut self) {
@@ -295,6 +319,12 @@ fn main() {
                         d.persist();
                         continue;
                     }
+                    // a message with t = -3 is the spec's Notice (the item's link reports that it is reconnecting)
+                    if ms.len() == 1 && i(&ms[0], "t") == -3 {
+                        d.notice(s(&ms[0], "item"));
+                        steps += 1;
+                        continue;
+                    }
                     // a message with t = -1 is the spec's Touch (cancel request recorded); only orders have one
                     if ms.len() == 1 && i(&ms[0], "t") == -1 {
                         if s(&ms[0], "item").starts_with("ord_") {
@@ -320,6 +350,11 @@ fn main() {
                 }
                 if rng.random_range(0..8) == 0 {
                     d.touch(["ord_c1", "ord_c2", "ord_c3", "ord_c4"][rng.random_range(0..4)]);
+                    steps += 1;
+                    continue;
+                }
+                if rng.random_range(0..10) == 0 {
+                    d.notice(ITEMS[rng.random_range(0..ITEMS.len())]);
                     steps += 1;
                     continue;
                 }
